@@ -76,7 +76,8 @@ def gen(c):
     dmax = (2 ** 53 - 1) << 971
     for t in ["1.7976931348623157e308", "1.7976931348623158e308", "1.7976931348623159e308", "1.79769313486231580793e308", "1.8e308", "1e309", "44e307",
               "810e306", "9e308", "0.1e310", "17976931348623157e292", str(dmax), str(dmax + (1 << 970)), str(dmax + (1 << 970) - 1), str(dmax + (1 << 971)),
-              "1" + "0" * 308, "1" + "0" * 309, "1" + "0" * 400, "2e308", "1e400", "1e99999", "123e400"]:
+              "1" + "0" * 308, "1" + "0" * 309, "1" + "0" * 400, "2e308", "1e400", "1e99999", "123e400",
+              "1e4294967297", "1e4294967396", "7e42949672960", "1e1000000", "25e4294967295", "1e-4294967297", "0e4294967297"]:     # (exponents that wrap a 32-bit counter)
         add(t, "range-top")
         add("-" + t, "range-top")
     # (e) the lower end
